@@ -142,6 +142,8 @@ def fbmc_case(draw):
         "power": draw(st.sampled_from([0.25, 0.0, 0.5, 1.0])),
         # scaling masses different from the atoms' own, set through the public update_masses()
         "custom_masses": draw(st.one_of(st.none(), st.lists(fl(1, 200), min_size=n, max_size=n))),
+        # when the constraint is put on the atoms: before the driver exists, after it was built, or while it runs
+        "attach": draw(st.sampled_from(["before", "before", "after-construction", "during-irun"])),
     }
     return case
 
@@ -158,10 +160,12 @@ def run_fbmc(case):
         cons.append(FixAtoms(indices=fixed.tolist()))
     if case["constraint"] in ("FixCom", "both"):
         cons.append(FixCom())
-    atoms.set_constraint(cons)
+    attach = case.get("attach", "before")
+    if attach == "before":
+        atoms.set_constraint(cons)
     params = {"k": 0.5, "center": (3.0, 3.0, 3.0), "a": 0.4, "s": 1.6, "forces": case["forces"]}
     atoms.calc = ModelCalc(case["calc"], params, committee=[-0.05, 0.0, 0.07] if case["driver"] == "AdaptiveForceBias" else None)
-    labels = ["fbmc:" + case["driver"], "constraint:" + case["constraint"], "calc:" + case["calc"]]
+    labels = ["fbmc:" + case["driver"], "constraint:" + case["constraint"], "calc:" + case["calc"], "attached:" + attach]
     pos0 = atoms.positions.copy()
     com0 = atoms.get_center_of_mass().copy()
     moved_steps = 0
@@ -176,7 +180,17 @@ def run_fbmc(case):
             if case.get("custom_masses"):
                 mc.update_masses(np.array(case["custom_masses"], dtype=float))
                 labels.append("custom-scaling-masses")
+            if attach == "after-construction":
+                atoms.set_constraint(cons)
+            attached = attach != "during-irun"
             for _ in mc.irun(case["steps"]):
+                if not attached:
+                    # from here on the constraint is in force: the reference is the state at this moment
+                    atoms.set_constraint(cons)
+                    attached = True
+                    pos0 = atoms.positions.copy()
+                    com0 = atoms.get_center_of_mass().copy()
+                    continue
                 prev = atoms.positions.copy()
                 # the step has not run yet at the yield of irun; check the state left by the previous one
                 if case["constraint"] in ("FixAtoms", "both") and not np.array_equal(prev[fixed], pos0[fixed]):
@@ -209,8 +223,10 @@ def fixrot_case(draw):
     a = draw(fl(0.5, 3.0))
     b = draw(fl(-3.0, 3.0))
     c = draw(fl(0.5, 3.0)) * draw(st.sampled_from([-1, 1]))
-    base = [[0.0, 0.0, 0.0], [a, 0.0, 0.0], [b, c, 0.0]]
-    rest = [[draw(fl(-3, 3)) for _ in range(3)] for _ in range(n - 3)]
+    # nearly linear (but never collinear) molecules: all off-axis coordinates shrunk by a common factor
+    flat = draw(st.sampled_from([1.0, 1.0, 1.0, 0.1, 0.03, 0.01, 0.003]))
+    base = [[0.0, 0.0, 0.0], [a, 0.0, 0.0], [b, c * flat, 0.0]]
+    rest = [[draw(fl(-3, 3)), draw(fl(-3, 3)) * flat, draw(fl(-3, 3)) * flat] for _ in range(n - 3)]
     rot = [draw(fl(0, 6.28)) for _ in range(3)]
     shift = [draw(fl(-5, 5)) for _ in range(3)]
     return {
@@ -303,7 +319,7 @@ def run_fixrot(case):
         res["violation"] = {"kind": "fixrot:non-finite", "detail": "adjusted momenta contain NaN/inf"}
     elif np.linalg.norm(l1) > tol_l:
         res["violation"] = {"kind": "fixrot:angular-momentum", "detail": f"|L| after adjust_momenta = {np.linalg.norm(l1):.3e} (before {np.linalg.norm(l0):.3e}, sum|r x p|={l_scale:.3e}, cond(I)={cond:.2e}, tol={tol_l:.2e})"}
-    elif np.abs(p_tot1 - p_tot0).max() > 1e-12 * max(1.0, float(np.abs(p).sum())):
+    elif np.abs(p_tot1 - p_tot0).max() > 1e-12 * max(1.0, float(np.abs(p).sum())) * max(1.0, 1e-2 * cond):  # the correction omega x r grows with 1/I_min
         res["violation"] = {"kind": "fixrot:linear-momentum", "detail": f"total linear momentum changed by {np.abs(p_tot1 - p_tot0).max():.3e}"}
     return res
 
@@ -313,7 +329,7 @@ def plan(tier):
     if tier == "quick":
         return [
             {"part": "mc", "shards": 8, "budget": {"n_examples": 150, "steps": 25}},
-            {"part": "fbmc", "shards": 4, "budget": {"n_examples": 150}},
+            {"part": "fbmc", "shards": 4, "budget": {"n_examples": 500}},
             {"part": "fixrot", "shards": 4, "budget": {"n_examples": 1500}},
         ]
     return [
